@@ -409,7 +409,7 @@ class H:
             e = R(f(var))
             for _ in range(order):
                 e = diff(e, var.e)
-            return SymReal(z3.simplify(z3.substitute(e, (var.e, R(at)))))
+            return SymReal(funcs.renorm(z3.substitute(e, (var.e, R(at)))))
         a = float(at)
         hh = step
         if order == 0:
